@@ -24,7 +24,7 @@ for pid in ALL:
     ))
 manifest = dict(
     version=1,
-    setup_cmd="cd /verif/lean && lake build JominiModel jmdriver && cd /verif/harness && (test -f Cargo.lock || cp /repo/Cargo.lock .) && CARGO_NET_OFFLINE=true RUSTFLAGS='--cfg jomini_verif --cfg unoptimized_build' cargo build --release --offline",
+    setup_cmd="cd /verif/lean && (lake build JominiModel jmdriver || lake build jmdriver) && cd /verif/harness && (test -f Cargo.lock || cp /repo/Cargo.lock .) && CARGO_NET_OFFLINE=true RUSTFLAGS='--cfg jomini_verif --cfg unoptimized_build' cargo build --release --offline",
     hooks=dict(
         guard="cfg(jomini_verif)",
         enable="RUSTFLAGS='--cfg jomini_verif --cfg unoptimized_build' (set by /verif/check and /verif/harness/.cargo/config.toml); unoptimized_build is the repository's own pre-existing cfg exposing the reference binary parser",
